@@ -1,4 +1,5 @@
 pub mod c01;
+pub mod c06;
 pub mod c07;
 pub mod c08;
 pub mod c13;
@@ -19,6 +20,8 @@ pub fn by_id(id: &str) -> Option<Box<dyn Property>> {
         "C12" => Some(Box::new(semprops::C12)),
         "C13" => Some(Box::new(c13::C13)),
         "C15" => Some(Box::new(c15::C15)),
+        "C06" => Some(Box::new(c06::C06)),
+        "C10" => Some(Box::new(c06::C10)),
         "C07" => Some(Box::new(c07::C07)),
         "C08" => Some(Box::new(c08::C08)),
         _ => None,
